@@ -302,9 +302,7 @@ impl PublishBuilder {
             // handle client receive maximum
             if let Some(rx) = self.shared.wait_readiness() {
                 Either::Left(Either::Left(async move {
-                    if rx.await.is_err() {
-                        return Err(SendPacketError::Disconnected);
-                    }
+                    self.shared.wait_window(rx).await?;
                     self.send_at_least_once_inner(payload).await
                 }))
             } else {
@@ -365,9 +363,7 @@ impl PublishBuilder {
             // handle client receive maximum
             let fut = if let Some(rx) = self.shared.wait_readiness() {
                 Either::Left(Either::Left(async move {
-                    if rx.await.is_err() {
-                        return Err(SendPacketError::Disconnected);
-                    }
+                    self.shared.wait_window(rx).await?;
                     self.stream_at_least_once_inner(tx, None).await
                 }))
             } else {
@@ -429,9 +425,7 @@ impl PublishBuilder {
             // handle client receive maximum
             if let Some(rx) = self.shared.wait_readiness() {
                 Either::Left(Either::Left(async move {
-                    if rx.await.is_err() {
-                        return Err(SendPacketError::Disconnected);
-                    }
+                    self.shared.wait_window(rx).await?;
                     self.send_exactly_once_inner(payload).await
                 }))
             } else {
@@ -595,10 +589,8 @@ impl SubscribeBuilder {
             Err(SendPacketError::Disconnected)
         } else {
             // handle client receive maximum
-            if let Some(rx) = shared.wait_readiness()
-                && rx.await.is_err()
-            {
-                return Err(SendPacketError::Disconnected);
+            if let Some(rx) = shared.wait_readiness() {
+                shared.wait_window(rx).await?;
             }
 
             // allocate packet id
@@ -683,10 +675,8 @@ impl UnsubscribeBuilder {
             Err(SendPacketError::Disconnected)
         } else {
             // handle client receive maximum
-            if let Some(rx) = shared.wait_readiness()
-                && rx.await.is_err()
-            {
-                return Err(SendPacketError::Disconnected);
+            if let Some(rx) = shared.wait_readiness() {
+                shared.wait_window(rx).await?;
             }
             // allocate packet id
             packet.packet_id = self.id.unwrap_or_else(|| shared.next_id());
